@@ -106,8 +106,10 @@ impl Assignment {
         let name = self.idents[0].name();
 
         if self.flags().contains(AssignmentFlag::modify()) {
+            // the declaration behind the name: earlier `modify name = ..` statements of this function
+            // are aliases of the same captured variable, not declarations
             let (ident, is_callback) = user_data
-                .get_dependency_flags_from_name_skip_n(name, skip)
+                .get_declaration_flags_from_name_skip_n(name, skip)
                 .context(
                     "attempting to look up a variable that does not exist in any parent scope",
                 )?;
